@@ -150,6 +150,12 @@ def releaseVia (d : DState) (f : Family) (addr : Nat) (file : String) (line : Na
   | some w => releaseBy w d.cur d.st addr file line
   | none => release d.cur f d.st addr file line
 
+/-- the family whose current allocator the HARNESS consults to decide whether sizes are shown (by the form's name) -/
+def requiredFamilyOfForm (form : String) : Family :=
+  if form == "malloc" || form == "free" then .malloc
+  else if form.startsWith "newa" || form.startsWith "dela" then .newArray
+  else .new
+
 def curEntry (d : DState) (f : Family) : RegEntry :=
   let a := d.cur.of f
   (d.reg.find? (fun e => e.alloc == a)).getD { alloc := a, recording := false }
@@ -239,29 +245,24 @@ def modelStepRaw (d : DState) (op : List String) (obs : List (List String)) : DS
     | some .newArray, some e => fin { d with cur := { d.cur with newArrayA := e.alloc } } []
     | some .malloc, some e => fin { d with cur := { d.cur with mallocA := e.alloc } } []
     | _, _ => (d, ["bad-op"])
-  | [g, size, file, line] =>
-    let fam : Option Family := if g == "gnew" then some .new else if g == "gnewarray" then some .newArray
-      else if g == "gmalloc" then some .malloc else none
-    match fam, size.toNat?, line.toNat? with
-    | some f, some size, some line =>
+  | ["gacq", form, size, file, line] =>
+    -- an acquiring overload: the operator's forwarding, the function-pointer table of the current mode and the function's
+    -- own allocator / location / layout, all as regenerated from the source
+    match acquireWrapperOf d.threadSafe form, size.toNat?, line.toNat? with
+    | some w, some size, some line =>
       let result := obsResult "ualloc" obs
-      let r := acquire d.cur f d.st size file line result true fillByte
-      fin { d with st := r.1 } (r.2.map (renderEv result (showSizes (curEntry d f))))
-    | _, _, _ =>
-      if g == "gfree" then
-        match size.toNat?, line.toNat? with
-        | some addr, some line =>
-          let r := releaseVia d .malloc addr file line
-          fin { d with st := r.1 } (r.2.map (renderEv 0 (showSizes (curEntry d .malloc))))
-        | _, _ => (d, ["bad-op"])
-      else (d, ["bad-op"])
-  | [g, addr] =>
-    let fam : Option Family := if g == "gdelete" then some .new else if g == "gdeletearray" then some .newArray else none
-    match fam, addr.toNat? with
-    | some f, some addr =>
-      let r := releaseVia d f addr "<unknown>" 0
-      fin { d with st := r.1 } (r.2.map (renderEv 0 (showSizes (curEntry d f))))
-    | _, _ => (d, ["bad-op"])
+      let r := acquireBy w d.cur d.st size file line result true fillByte
+      fin { d with st := r.1 } (r.2.map (renderEv result
+        (showSizes (curEntry d (requiredFamilyOfForm form)) && showSizes (curEntry d (familyOfGetter w.getter)))))
+    | _, _, _ => (d, ["bad-op"])
+  | ["grel", form, addr, file, line] =>
+    match releaseWrapperOf d.threadSafe form, addr.toNat?, line.toNat? with
+    | some w, some addr, some line =>
+      let r := releaseBy w d.cur d.st addr file line
+      -- the size given to free_memory is shown when the allocator the harness expects and the one the code uses both record it
+      fin { d with st := r.1 } (r.2.map (renderEv 0
+        (showSizes (curEntry d (requiredFamilyOfForm form)) && showSizes (curEntry d (familyOfGetter w.getter)))))
+    | _, _, _ => (d, ["bad-op"])
   | _ => (d, ["bad-op"])
 
 def modelStep (d : DState) (op : List String) (obs : List (List String)) : DState × List String :=
